@@ -436,7 +436,8 @@ CAT_GENERIC_DEPTH = {"dejitter_sub": (5, 6), "subpic_schedule_sub": (5, 6), "pla
 #   0/1 set_flow_def(F1/F2)  3/7 input (plain / shared)  38 the reference input's pump  11 toggle S0  10/8 set_output(NULL/S0)  31 release(sub0)  40 release
 _CONT_ONLY = "0,1,3,7,38,11,10,8,31,29,43"   # 43 = release (operation numbers: see the OP_ enum of pipex_cat.c)
 #   blit: 33 dispatch(ready pump 0)   14 / 18 / 22 / 26 one value of each option of subpipe 0 (rect, alpha, alpha threshold, z-index)
-CAT_EXTRA = {"buffer": [(["--prefix", "0,8,16", "--only", "3,4,5,7,33,34,38,12"], 5, 6)],   # definition, output, max_size 6: then only data and the loop
+CAT_EXTRA = {"audio_copy": [(["--prefix", "8,0,40", "--only", "0,1,3,4,5,6,7,40,43"], 4, 5, 2)],   # late providers: output, F1, first answer; then definitions, data, answers
+             "buffer": [(["--prefix", "0,8,16", "--only", "3,4,5,7,33,34,38,12"], 5, 6)],   # definition, output, max_size 6: then only data and the loop
              "play": [(["--prefix", "29,29,0,30", "--only", "3,4,42,1,31,32,43"], 4, 5)],
              "blit": [(["--prefix", "29,8,0", "--only", "0,1,3,7,38,33,11,31,14,18,22,26,43"], 4, 5)],
              # second job: both inputs exist, the second one has its definition ("in2") and has just been selected by name (the first
@@ -481,8 +482,11 @@ def _cat_jobs(oracle, tier, rows=CAT_ROWS, pools=(0, 2)):
                 axes.append((pools[0], 2, d - 1))
         for (pool, prov, depth) in axes:
             jobs.append(("pipex_cat", ["--row", r, "--oracle", oracle, "--pool", pool, "--prov", prov, "--depth", depth, "--deadline", 75 if q else 840]))
-        for (extra, dq, dt) in CAT_EXTRA.get(r, []):
-            for (pool, prov) in ([(pools[0], 0)] if q else [(pools[0], 0), (pools[-1], 1)]):
+        for item in CAT_EXTRA.get(r, []):
+            (extra, dq, dt) = item[:3]
+            if len(item) > 3 and oracle == "C20":
+                continue   # (start states that need late providers: not under the C20 oracle, see above)
+            for (pool, prov) in ([(pools[0], item[3])] if len(item) > 3 else [(pools[0], 0)] if q else [(pools[0], 0), (pools[-1], 1)]):
                 jobs.append(("pipex_cat", ["--row", r, "--oracle", oracle, "--pool", pool, "--prov", prov, "--depth", dq if q else dt, "--deadline", 75 if q else 840] + extra))
     return jobs
 
